@@ -10,6 +10,7 @@ numbering    generated histories: (cycle, node) <-> cumulative node / step numbe
 numbering_enum  the same for every vector of burn steps per cycle up to a bound (complete enumeration).
 """
 import math
+import os
 
 from hypothesis import strategies as st
 
@@ -44,12 +45,14 @@ ASSUMPTIONS = [
 EXCLUDE_KNOWN = {
     # _interactAll: ``halt = halt or interactMethod(*args)`` does not call the hooks of the interfaces that follow
     # the halting one in the same BOC event
-    "trace/BOC/halt-skips-rest-of-stack": True,
+    "trace/BOC/halt-skips-rest-of-stack": False,  # repaired in /repo (fix: commit 85a966e); the shape is searched again
     # detailed cycles input ``burn steps: 0`` (allowed by the schema) -> ZeroDivisionError
     "history/detailed-burn-steps-zero": True,
     # detailed cycles input ``availability factor: 0`` (allowed by the schema) -> ZeroDivisionError
     "history/detailed-availability-zero": True,
 }
+if os.environ.get("VP_C15_INCLUDE_KNOWN") == "1":  # search those shapes too (e.g. on a tree where they are fixed)
+    EXCLUDE_KNOWN = {k: False for k in EXCLUDE_KNOWN}
 
 POOL = ["main", "fuelHandler", "depletion", "xs", "flux", "th", "history", "database", "report"]
 VALUE_KINDS = ["float", "int", "list", "list2d", "ndarray"]
@@ -570,19 +573,17 @@ def compare_segment(out, tag, expected, actual, left_open, halt_cfg):
                 sig = "%s/%s/selection" % (tag, ev)
             out.fail(sig, "%s%s: expected interfaces %s, called %s" % (ev, list(ke[1]), ne, na))
             return False
-    ok = True
-    seen = set()
     for e, a in zip(expected, actual):
         for f in _EXACT + _FLOAT:
             if f not in e:
                 continue
             good = (a[f] == e[f]) if f in _EXACT else (a[f] is not None and _close(a[f], e[f]))
-            if not good and (e["ev"], f) not in seen:
-                seen.add((e["ev"], f))
-                ok = False
+            if not good:
+                # only the first difference: later ones are its consequences
                 out.fail("state/%s/%s" % (e["ev"], f),
                          "%s %s%s: reactor state %s = %r, expected %r" % (e["name"], e["ev"], e["args"], f, a[f], e[f]))
-    return ok
+                return False
+    return True
 
 
 # ------------------------------------------------------------------------------------------------
@@ -706,15 +707,18 @@ def run_execute(case):
         bounds.append((n0, len(trace)))
         rets.append(ret)
 
-    main_ok = True
+    all_ok = True
     for k, ((lo, hi), (exp, left_open, halt_exp)) in enumerate(zip(bounds, segs)):
         tag = "trace" if k == 0 else "direct"
-        ok = compare_segment(out, tag, exp, trace[lo:hi], left_open, cfg["halt"])
-        if k == 0:
-            main_ok = ok
-        elif ok and halt_exp is not None:
-            out.check(rets[k] == halt_exp, "direct/BOC/halt-return-value",
-                      lambda: "interactAllBOC(%d) returned %r, expected %r" % (norm["direct"][k - 1]["cycle"], rets[k], halt_exp))
+        all_ok = compare_segment(out, tag, exp, trace[lo:hi], left_open, cfg["halt"])
+        if all_ok and halt_exp is not None:
+            all_ok = out.check(rets[k] == halt_exp, "direct/BOC/halt-return-value",
+                               lambda: "interactAllBOC(%d) returned %r, expected %r" % (norm["direct"][k - 1]["cycle"], rets[k], halt_exp))
+        if not all_ok:
+            break  # what follows a difference is its consequence
+    main_ok = all_ok
+    if not all_ok:
+        return out
 
     # ---- active-interface selection asked directly
     probes = [("Coupled", (), 0)]
@@ -906,14 +910,14 @@ def numbering_enum_execute(case):
 
 
 PARTS = [
-    Part("run", run_execute, strategy=run_strategy, budget={"quick": 1200, "thorough": 40000}, procs={"quick": 8, "thorough": 16},
+    Part("run", run_execute, strategy=run_strategy, budget={"quick": 800, "thorough": 30000}, procs={"quick": 8, "thorough": 16},
          rule="Hypothesis: cycle history (simple or detailed input, repeat syntax, zero-step cycles, 1/8 documented-invalid), restart "
               "point (preset or set by the first BOL hook), 1-6 recording interfaces (insert index, enabled, bolForce, reverseAtEOL, "
               "deferred, function/coupler with scripted convergence), deferral cycle, BOC halt, tight coupling (cap, skipped cycles), "
               "then up to 3 direct interactAll* calls with exclusion lists; non-trivial = trace equal AND >= 2 cycles run AND a "
               "non-default interface attribute or coupling iterations; oracle: event list of the reference scheduler, exact "
               "(floats rel 1e-10); invalid configurations must raise ValueError"),
-    Part("numbering", numbering_execute, strategy=numbering_strategy, budget={"quick": 4000, "thorough": 200000},
+    Part("numbering", numbering_execute, strategy=numbering_strategy, budget={"quick": 2500, "thorough": 150000},
          procs={"quick": 8, "thorough": 16},
          rule="Hypothesis: valid histories up to 8 cycles x 6 steps in both input styles; every node and step of the history: "
               "getCumulativeNodeNum / getCycleNodeFromCumulativeNode / getCycleNodeFromCumulativeStep / getPreviousTimeNode are mutually "
